@@ -6,7 +6,16 @@ from mc.monitors2 import TwoWay
 LEVEL = 'model_checking'
 NAMES = ['W_2way']
 D = W.depths_for(NAMES, quick=2, thorough=3)
-P = HistProp('C11', lambda t: W.make(NAMES), lambda w, t: [TwoWay()], D,
+def _worlds(tier):
+  ws = W.make(NAMES)
+  for w in ws:
+    # a rejected change must leave no trace in the reference index either: histories are extended
+    # past failing bundles (rejection followed by legal edits)
+    w.continue_after_failure = True
+  return ws
+
+
+P = HistProp('C11', _worlds, lambda w, t: [TwoWay()], D,
              rule='all histories over W_2way (edits on either side incl. duplicate targets in one '
                   'bulk action, removals, Ref<->RefList switches, link removal/creation); for every '
                   'pair linked through reverseCol: b in refs(A[a].x) <=> a in refs(B[b].xs) over '
